@@ -332,3 +332,15 @@ def _register_shared():
 
 
 # _register_shared() is called by the driver after this module is fully imported (no import cycles)
+
+
+# every generated point that reaches a patch writer ends up in the patch file, also a single pending record (C02 units on PatchWriter)
+def _register_shared_round9():
+    from . import C02 as _C02
+    unit(P, "PatchWriter.process_chunk", fuc=["yaw.catalog.patch:PatchWriter.process_chunk", "yaw.catalog.patch:PatchWriter.flush"],
+         cases=[dict(pending=k, flushed=f, **fs) for k in (0, 1, 2) for f in (False, True) for fs in (_C02.FIELDSETS[0],)], kind="bounded")(_C02.u_pw_process)
+    unit(P, "PatchWriter.close", fuc=["yaw.catalog.patch:PatchWriter.close", "yaw.catalog.patch:PatchWriter.flush"],
+         cases=[dict(pending=k, flushed=f, **fs) for k in (0, 1, 2) for f in (False, True) for fs in (_C02.FIELDSETS[0],)], kind="bounded")(_C02.u_pw_close)
+
+
+# _register_shared_round9() is called by the driver after this module is fully imported (no import cycles)
